@@ -287,8 +287,9 @@ def build_pool(seed, tier):
         calls.extend(members)
     # one reused-parser group per statement family (its failing members included), so that no family depends on the cycling above
     # to meet a reused Parser: every statement in its own dialect, error level cycling
-    for _fi, fname in enumerate(fam_names):
-        lvl = levels[(_fi + off) % len(levels)]
+    lenient = ["WARN", "IGNORE", "RAISE"]  # levels at which a parser keeps going: the ones a leaked IMMEDIATE would change
+    for _fi, (fname, lvl) in enumerate([(f_, levels[(i_ + off) % len(levels)]) for i_, f_ in enumerate(fam_names)] +
+                                       [(f_, lenient[(i_ + off) % 3]) for i_, f_ in enumerate(fam_names)]):
         fam_ = corpus.stateful_families()[fname]
         members = [{"op": "parse", "sql": q, "read": d, "error_level": lvl} for d, q in fam_]
         # failing inputs are read in the dialects of the family's own members, so that they meet the same reused Parser objects
@@ -329,7 +330,7 @@ def build_pool(seed, tier):
 
 
 def call_sig(step):
-    c = {k: v for k, v in step.items() if k not in ("comp", "exhaust", "reuse_dialect", "abort_at")}
+    c = {k: v for k, v in step.items() if k not in ("comp", "exhaust", "exhaust_sweep", "reuse_dialect", "abort_at")}
     return common.short_hash(c, 10)
 
 
@@ -337,7 +338,7 @@ def call_sig(step):
 
 
 def _alone(call, tp, hashseed):
-    step = {k: v for k, v in call.items() if k not in ("comp", "exhaust", "reuse_dialect", "abort_at")}
+    step = {k: v for k, v in call.items() if k not in ("comp", "exhaust", "exhaust_sweep", "reuse_dialect", "abort_at")}
     step["comp"] = "fresh"
     r = tp.run(hashseed, {"record": {"config": {}, "steps": [step]}}, timeout=120)
     if "outputs" not in r:
@@ -464,7 +465,10 @@ def generate(prop, run_seed, tier):
             c = dict(focus[rng.randrange(len(focus))])
             c["comp"] = "reused:0"
             if "stack_exhaustion" in faults and rng.random() < ex_rate:
-                c["exhaust"] = rng.randrange(10, 120)
+                if ex_rate > 0.1 and c["op"] in ("parse", "generate", "tokenize") and rng.random() < 0.5:
+                    c["exhaust_sweep"] = [8, rng.choice([60, 100]), rng.choice([1, 2, 3])]
+                else:
+                    c["exhaust"] = rng.randrange(10, 120)
             if "abort_generate" in faults and c["op"] == "generate" and rng.random() < 0.4:
                 c["abort_at"] = rng.randrange(1, 48)
             steps.append(c)
@@ -553,6 +557,12 @@ def execute(record, state):
                 faults["abort_generate"] += 1
                 comp_failed.add(ckey)
             continue  # the injected abort itself is not judged
+        if step.get("exhaust_sweep"):
+            faults["stack_exhaustion_armed"] += len(range(*step["exhaust_sweep"]))
+            faults["stack_exhaustion"] += got[1] if isinstance(got, list) and len(got) > 1 and isinstance(got[1], int) else 0
+            if comp != "fresh":
+                comp_failed.add(ckey)
+            continue
         if step.get("exhaust") is not None:
             # The injected fault itself is never judged (sqlglot may surface the RecursionError as one of its own
             # errors, e.g. TokenError); what is judged is every step that follows on the same components.
@@ -600,7 +610,7 @@ def _short(o):
 
 def _show(step):
     s = "%s[%s]" % (step["op"], step.get("comp", "fresh"))
-    for k in ("rule", "read", "write", "error_level", "opts", "schema", "column", "exhaust", "abort_at"):
+    for k in ("rule", "read", "write", "error_level", "opts", "schema", "column", "exhaust", "exhaust_sweep", "abort_at"):
         if step.get(k) not in (None, {}, ""):
             s += " %s=%s" % (k, step[k])
     if "sql" in step:
@@ -642,7 +652,7 @@ def simplify_record(rec, violation, state, same):
             except Exception:
                 pass
     for i in range(len(rec["steps"])):
-        for key in ("exhaust", "abort_at"):
+        for key in ("exhaust", "exhaust_sweep", "abort_at"):
             if rec["steps"][i].get(key) is not None:
                 r2 = copy.deepcopy(rec)
                 r2["steps"][i].pop(key)
